@@ -241,7 +241,7 @@
       '()
       (cons (f (car xs)) (map1 f (cdr xs)))))
 
-(define (map f . xss)
+(define (map f xs . xss)
   (letrec
    ((map-all
      (lambda (xss)
@@ -250,9 +250,9 @@
            (cons (apply f (map1 car xss))
                  (map-all (map1 cdr xss)))))))
 
-    (map-all xss)))
+    (map-all (cons xs xss))))
 
-(define (for-each f . xss)
+(define (for-each f xs . xss)
   (letrec
    ((for-each-all
      (lambda (xss)
@@ -261,4 +261,4 @@
            (begin (apply f (map1 car xss))
                   (for-each-all (map1 cdr xss)) void)))))
 
-    (for-each-all xss)))
+    (for-each-all (cons xs xss))))
